@@ -387,6 +387,43 @@ theorem inv_gzip (tpl : Bool) (m : Option ErrMode) (i : Inner) (b : Beh) (h : In
     · left; exact ⟨by rw [quiet_gz _ h2]; exact h2, h3⟩
     · right; exact ⟨s, bb, h2, wrote_gz h3⟩
 
+/-- the plain writer of gzip (response filters declined): WriteHeader-once bookkeeping and the
+same fallback -/
+theorem inv_gzipPlain (tpl : Bool) (m : Option ErrMode) (i : Inner) (b : Beh) (h : Inv tpl m i b) :
+    Inv tpl m i (gzipPlainW b) := by
+  unfold Inv gzipPlainW at *
+  cases hout : b.out with
+  | ret s e =>
+    simp only [hout] at h ⊢
+    by_cases hs : s ≥ 400
+    · simp only [hs, if_true] at h ⊢
+      obtain ⟨h1, h2, h3⟩ := h
+      subst h1
+      have : ¬ (0 ≥ 400) := by omega
+      simp only [this, if_false]
+      have hq : norm b.ops = b.ops := by unfold norm; exact quiet_normGo false _ h2
+      rw [hq]
+      unfold runOps
+      rw [runGo_quiet _ _ _ h2]
+      exact h3
+    · simp only [hs, if_false] at h ⊢
+      exact good_norm tpl m i _ _ (norm_rel b.ops) h
+  | panic =>
+    simp only [hout] at h ⊢
+    obtain ⟨h1, h2⟩ := h
+    refine ⟨h1, ?_⟩
+    rcases h2 with ⟨h2, h3⟩ | ⟨s, bb, h2, h3⟩
+    · left; exact ⟨by unfold norm; rw [quiet_normGo false _ h2]; exact h2, h3⟩
+    · right; exact ⟨s, bb, h2, wrote_norm h3⟩
+
+/-- whatever the response filters decide -/
+theorem inv_gzipF (dec : List WOp → Bool) (tpl : Bool) (m : Option ErrMode) (i : Inner) (b : Beh)
+    (h : Inv tpl m i b) : Inv tpl m i (gzipFW dec b) := by
+  unfold gzipFW
+  split
+  · exact inv_gzip _ _ _ _ h
+  · exact inv_gzipPlain _ _ _ _ h
+
 theorem inv_log (tpl : Bool) (m : Option ErrMode) (i : Inner) (b : Beh) (h : Inv tpl m i b) :
     Inv tpl m i (logW b) := by
   unfold logW
@@ -581,6 +618,41 @@ theorem inv_chain (c : Cfg) (r : Req) (n : Nat) (i : Inner) (hok : Inner.ok i = 
   · exact inv_log _ _ _ _ h4
   · exact h4
 
+theorem chainF_eq (dec : List WOp → Bool) (c : Cfg) (r : Req) (n : Nat) (i : Inner) :
+    chainF dec c r n i =
+      (fun b => if c.log then logW b else b)
+        ((fun b => if c.gzip && r.html && r.ae then gzipFW dec b else b)
+          ((fun b => if c.header then headerW b else b)
+            (pre n (stage2 (if c.templates then some r.html else none) (effectiveErrors c) i)))) := by
+  unfold chainF stage2
+  cases c.templates <;> cases effectiveErrors c <;> simp [errorsW_pre]
+
+theorem inv_chainF (dec : List WOp → Bool) (c : Cfg) (r : Req) (n : Nat) (i : Inner) (hok : Inner.ok i = true) :
+    Inv (c.templates && r.html) (effectiveErrors c) i (chainF dec c r n i) := by
+  rw [chainF_eq, ← tplActive_eq]
+  simp only []
+  have h2 := inv_pre _ _ _ _ n (inv_stage2 (if c.templates then some r.html else none) (effectiveErrors c) i hok)
+  generalize pre n (stage2 (if c.templates then some r.html else none) (effectiveErrors c) i) = b2 at h2
+  generalize tplActive (if c.templates then some r.html else none) = tp at h2 ⊢
+  have h3 : Inv tp (effectiveErrors c) i (if c.header then headerW b2 else b2) := by
+    split
+    · exact inv_header _ _ _ _ h2
+    · exact h2
+  generalize (if c.header then headerW b2 else b2) = b3 at h3
+  have h4 : Inv tp (effectiveErrors c) i (if c.gzip && r.html && r.ae then gzipFW dec b3 else b3) := by
+    split
+    · exact inv_gzipF _ _ _ _ _ h3
+    · exact h3
+  generalize (if c.gzip && r.html && r.ae then gzipFW dec b3 else b3) = b4 at h4
+  show Inv tp (effectiveErrors c) i (if c.log then logW b4 else b4)
+  split
+  · exact inv_log _ _ _ _ h4
+  · exact h4
+
+/-- filters that always say "compress": the chain without response filters -/
+theorem chainF_all (c : Cfg) (r : Req) (n : Nat) (i : Inner) : chainF (fun _ => true) c r n i = chain c r n i := by
+  unfold chainF chain gzipFW; simp
+
 /-! ### server state: the response does not depend on what earlier requests left behind -/
 
 theorem leak_nil (enc : Bool) (ops : List WOp) : leak [] enc ops = ops := by
@@ -754,6 +826,28 @@ theorem siteChain_eq (s : Site) (path : String) (r : Req) (n : Nat) (i : Inner) 
   rcases hb s.header.isEmpty with hE | hE <;> rcases hb r.ae with ha | ha <;>
     cases s.errMode <;> simp only [hE, ha, errorsOptW, Bool.not_false, Bool.not_true, Bool.and_true, Bool.and_false,
       if_true, Bool.false_eq_true, if_false] <;> rfl
+
+theorem gzipConfigWF_eq (f : RespFacts) (o : Option GzipLine) (b : Beh) :
+    gzipConfigWF f o b = if o.isSome then gzipFW (siteDec f o) b else b := by
+  cases o <;> rfl
+
+/-- … with gzip's response filters: those of the FIRST config that lets the request through -/
+theorem siteChainF_eq (f : RespFacts) (s : Site) (path : String) (r : Req) (n : Nat) (i : Inner) :
+    siteChainF f s path r n i = chainF (siteDec f (gzipConfigFor s.gzip path r.html)) (s.cfg path) r n i := by
+  unfold siteChainF chainF
+  simp only [gzipConfigWF_eq]
+  generalize siteDec f (gzipConfigFor s.gzip path r.html) = dec
+  rw [logRuleW_setup, site_effectiveErrors, tplRuleW_eq, gzipConfigFor_isSome]
+  simp only [Site.cfg]
+  have hb : ∀ x : Bool, x = false ∨ x = true := fun x => by cases x <;> simp
+  rcases hb s.header.isEmpty with hE | hE <;> rcases hb r.ae with ha | ha <;>
+    cases s.errMode <;> simp only [hE, ha, errorsOptW, Bool.not_false, Bool.not_true, Bool.and_true, Bool.and_false,
+      if_true, Bool.false_eq_true, if_false] <;> rfl
+
+theorem siteServeWireF_eq (f : RespFacts) (s : Site) (path : String) (r : Req) (n : Nat) (i : Inner) :
+    siteServeWireF f s path r n i =
+      serveWireF (siteDec f (gzipConfigFor s.gzip path r.html)) (s.cfg path) r n i := by
+  unfold siteServeWireF serveWireF siteServeF serveF; rw [siteChainF_eq]
 
 theorem siteServe_eq (s : Site) (path : String) (r : Req) (n : Nat) (i : Inner) :
     siteServe s path r n i = serve (s.cfg path) r n i := by
